@@ -392,9 +392,17 @@ func (pm *Portmapper) handleCall(data []byte, remoteAddr net.Addr) ([]byte, erro
 		case 0: // RPCBPROC_NULL
 			result = nil
 		case 1: // RPCBPROC_SET - not implemented
-			result = pm.handleRpcbSet(r)
+			if isLoopbackAddr(remoteAddr) {
+				result = pm.handleRpcbSet(r)
+			} else {
+				result = pm.encodeBool(false)
+			}
 		case 2: // RPCBPROC_UNSET - not implemented
-			result = pm.handleRpcbUnset(r)
+			if isLoopbackAddr(remoteAddr) {
+				result = pm.handleRpcbUnset(r)
+			} else {
+				result = pm.encodeBool(false)
+			}
 		case 3: // RPCBPROC_GETADDR
 			result = pm.handleGetAddr(r)
 		case 4: // RPCBPROC_DUMP
@@ -636,6 +644,16 @@ func (pm *Portmapper) handleGetAddr(r io.Reader) []byte {
 	return buf.Bytes()
 }
 
+// isLoopbackAddr reports whether addr may modify the registry (nil = in-process caller).
+func isLoopbackAddr(addr net.Addr) bool {
+	if addr == nil {
+		return true
+	}
+	host, _, _ := net.SplitHostPort(addr.String())
+	ip := net.ParseIP(host)
+	return ip == nil || ip.IsLoopback()
+}
+
 // handleRpcbSet handles rpcbind v3/v4 SET procedure
 func (pm *Portmapper) handleRpcbSet(r io.Reader) []byte {
 	// Read rpcb structure
@@ -771,6 +789,10 @@ func (pm *Portmapper) makeReply(xid uint32, status uint32, data []byte) []byte {
 		}
 	} else {
 		binary.Write(&buf, binary.BigEndian, status)
+		if status == PROG_MISMATCH {
+			binary.Write(&buf, binary.BigEndian, uint32(2)) // low
+			binary.Write(&buf, binary.BigEndian, uint32(4)) // high
+		}
 	}
 
 	return buf.Bytes()
